@@ -943,3 +943,107 @@ package mail
 // pass removes exactly the separator blank in front of each fold (the fold brings its own), so the field unfolds
 // to the value; a second pass would eat blanks that belong to the value
 //@ at mail.msgWriter.writeHeader mail.msgWriter.writeString#1 before assert[C18:one-cleanup-pass] arg1 == replall(buffer.bcontent, " " + "\r\n", "\r\n")
+
+// C12 (continued): the last step, Msg.WriteTo itself. A signed message is rendered twice - once into a private
+// buffer inside signMessage (the pre-render), then into the destination. world.dest (ghost) names the
+// destination of the WriteTo call in progress: nothing but the msgWriter created for it writes to it (destkept:
+// a renderer whose sink is another object leaves it alone), so the count WriteTo returns is what the
+// destination accepted during the call, a refused write is reported, and so is a content producer that failed
+// in either rendering (m.prefailed / m.renderfailed: ghost, set from mw.pfail after the respective writeMsg).
+//@ ghost field dest ref
+//@ ghost field prefailed bool
+//@ ghost field renderfailed bool
+//@ pred destkept(mw *mail.msgWriter) = (old(allocated(world.dest)) && world.dest.under == nil && world.dest != old(mw.writer)) ==> (world.dest.sinkacc == old(world.dest.sinkacc) && world.dest.wfailed == old(world.dest.wfailed))
+// otherskept: a renderer changes the count and the error of no msgWriter but its own
+// (world.omw: ghost, never assigned inside the renderer - it stands for any other msgWriter; WriteTo points it at its own)
+//@ ghost field omw ref
+//@ pred otherskept(mw *mail.msgWriter) = (old(allocated(world.omw)) && world.omw != mw) ==> (as(world.omw, "*mail.msgWriter").bytesWritten == old(as(world.omw, "*mail.msgWriter").bytesWritten) && as(world.omw, "*mail.msgWriter").err == old(as(world.omw, "*mail.msgWriter").err))
+//@ func mail.msgWriter.Write (payload) (n, err)
+//@   ensures[C12:only-own-sink] destkept(mw)
+//@   ensures[C12:only-own-state] otherskept(mw)
+//@ func mail.msgWriter.writeString (s)
+//@   ensures[C12:only-own-sink] destkept(mw)
+//@   ensures[C12:only-own-state] otherskept(mw)
+//@ func mail.msgWriter.writeHeader (key, values)
+//@   ensures[C12:only-own-sink] destkept(mw)
+//@   ensures[C12:only-own-state] otherskept(mw)
+//@ func mail.msgWriter.startMP (mimeType, boundary) (b)
+//@   ensures[C12:only-own-sink] destkept(mw)
+//@   ensures[C12:only-own-state] otherskept(mw)
+//@ func mail.msgWriter.stopMP
+//@   ensures[C12:only-own-sink] destkept(mw)
+//@   ensures[C12:only-own-state] otherskept(mw)
+//@ func mail.msgWriter.newPart (header)
+//@   ensures[C12:only-own-sink] destkept(mw)
+//@   ensures[C12:only-own-state] otherskept(mw)
+//@ func mail.msgWriter.writeBody (writeFunc, encoding)
+//@   ensures[C12:only-own-sink] destkept(mw)
+//@   ensures[C12:only-own-state] otherskept(mw)
+//@ func mail.msgWriter.writePart (part, charset)
+//@   ensures[C12:only-own-sink] destkept(mw)
+//@   ensures[C12:only-own-state] otherskept(mw)
+//@ func mail.msgWriter.addFiles (files, isAttachment)
+//@   ensures[C12:only-own-sink] destkept(mw)
+//@   ensures[C12:only-own-state] otherskept(mw)
+//@   loop 1 invariant[C12:only-own-sink] destkept(mw)
+//@   loop 1 invariant[C12:only-own-state] otherskept(mw)
+//@   loop 2 invariant[C12:only-own-sink] destkept(mw)
+//@   loop 2 invariant[C12:only-own-state] otherskept(mw)
+//@   loop 3 invariant[C12:only-own-sink] destkept(mw)
+//@   loop 3 invariant[C12:only-own-state] otherskept(mw)
+//@ func mail.msgWriter.writeGenHeader (msg)
+//@   ensures[C12:only-own-sink] destkept(mw)
+//@   ensures[C12:only-own-state] otherskept(mw)
+//@   loop 2 invariant[C12:only-own-sink] destkept(mw)
+//@   loop 2 invariant[C12:only-own-state] otherskept(mw)
+//@ func mail.msgWriter.writePreformattedGenHeader (msg)
+//@   ensures[C12:only-own-sink] destkept(mw)
+//@   ensures[C12:only-own-state] otherskept(mw)
+//@   loop 2 invariant[C12:only-own-sink] destkept(mw)
+//@   loop 2 invariant[C12:only-own-state] otherskept(mw)
+//@ func mail.msgWriter.writeMsg (msg)
+//@   ensures[C12:only-own-sink] destkept(mw)
+//@   ensures[C12:only-own-state] otherskept(mw)
+//@   loop 1 invariant[C12:only-own-sink] destkept(mw)
+//@   loop 1 invariant[C12:only-own-state] otherskept(mw)
+//@   loop 3 invariant[C12:only-own-sink] destkept(mw)
+//@   loop 3 invariant[C12:only-own-state] otherskept(mw)
+//@   loop 4 invariant[C12:only-own-sink] destkept(mw)
+//@   loop 4 invariant[C12:only-own-state] otherskept(mw)
+// the CMS signer (internal/pkcs7, crypto) writes to hashes and buffers of its own: assumed, not proved
+//@ func mail.SMIME.signMessage (message) (r, err)
+//@   free_ensures[C12:signer-writes-elsewhere] (old(allocated(world.dest)) && world.dest.under == nil) ==> (world.dest.sinkacc == old(world.dest.sinkacc) && world.dest.wfailed == old(world.dest.wfailed))
+// middlewares are code outside the repository: the claim about WriteTo is for a Msg without middlewares
+//@ func mail.Msg.applyMiddlewares (msg) (r)
+//@   ensures[C12:identity-without-middlewares] len(m.middlewares) == 0 ==> r == old(msg)
+//@   loop 1 invariant[C12:identity-without-middlewares] len(m.middlewares) == 0 ==> msg == old(msg)
+//@ func mail.Msg.hasSMIME () (r)
+//@   ensures[C12:def] r == (m.sMIME != nil)
+//@ func mail.msgWriter.writeMsg (msg)
+//@   ensures[C12:wf-kept] msgok(msg)
+//@ func mail.Msg.newPart (contentType, opts) (r)
+//@   ensures[C12:new-part] r != nil && fresh(r)
+//@   loop 1 invariant[C12:new-part] allocated(p)
+//@ func mail.writeFuncFromBuffer (buffer) (r)
+//@   ensures[C12:producer-set] r != nil
+//@ func mail.Part.SetContent (content)
+//@   ensures[C12:producer-set] p.writeFunc != nil
+//@ at mail.Msg.signMessage entry ghost[C12:g] m.prefailed = false
+//@ at mail.Msg.signMessage mail.msgWriter.writeMsg#1 after ghost[C12:g] m.prefailed = mw.pfail
+//@ func mail.Msg.signMessage () (err)
+//@   requires[C12:wf] msgok(m) && m.sMIME != nil
+//@   ensures[C12:wf] msgok(m)
+//@   ensures[C12:pre-render-failure-reported] m.prefailed ==> err != nil
+//@   ensures[C12:pre-render-elsewhere] (old(allocated(world.dest)) && world.dest.under == nil) ==> (world.dest.sinkacc == old(world.dest.sinkacc) && world.dest.wfailed == old(world.dest.wfailed))
+//@   ensures[C12:pre-render-elsewhere] old(allocated(world.omw)) ==> (as(world.omw, "*mail.msgWriter").bytesWritten == old(as(world.omw, "*mail.msgWriter").bytesWritten) && as(world.omw, "*mail.msgWriter").err == old(as(world.omw, "*mail.msgWriter").err))
+//@   loop 1 invariant[C12:wf] freshslice(parts) && (forall j :: 0 <= j && j < len(parts) ==> (parts[j] != nil && parts[j].writeFunc != nil)) && msgok(m)
+//@ at mail.Msg.WriteTo entry ghost[C12:g] world.dest = writer
+//@ at mail.Msg.WriteTo mail.Msg.applyMiddlewares#1 before ghost[C12:g] world.omw = mw
+//@ at mail.Msg.WriteTo entry ghost[C12:g] m.prefailed = false
+//@ at mail.Msg.WriteTo entry ghost[C12:g] m.renderfailed = false
+//@ at mail.Msg.WriteTo mail.msgWriter.writeMsg#1 after ghost[C12:g] m.renderfailed = mw.pfail
+//@ func mail.Msg.WriteTo (writer) (n, err)
+//@   requires[C12:wf] msgok(m) && len(m.middlewares) == 0 && writer != nil && allocated(writer) && writer.under == nil
+//@   ensures[C12:count] n == writer.sinkacc - old(writer.sinkacc)
+//@   ensures[C12:failure-reported] (writer.wfailed && !old(writer.wfailed)) ==> err != nil
+//@   ensures[C12:producer-failure-reported] (m.prefailed || m.renderfailed) ==> err != nil
